@@ -239,7 +239,25 @@ pub fn run_pool(prop: &str, cfg: &Cfg, pc: &PoolCfg) -> PoolResult {
                                     ));
                                     None
                                 }
-                                WorkerEnd::Summary(_) => {
+                                WorkerEnd::Summary(s) => {
+                                    let fatal_signal = ["signal 11", "signal 6", "signal 7", "signal 4", "signal 8"].iter().any(|x| reason.contains(x));
+                                    if fatal_signal {
+                                        // memory corruption does not replay deterministically: the crash is real even
+                                        // though no single case reproduces it in isolation
+                                        let mut deaths = shared.deaths.lock().unwrap();
+                                        deaths.push(json!({
+                                            "index": from, "class": "process-death-unpinned",
+                                            "case": format!("one of the cases of shard {shard} from index {from} on (the crash did not recur when they were re-run one by one)"),
+                                            "detail": format!("a worker was {reason}; re-running its cases one by one did not crash: the interpreter corrupts memory nondeterministically"),
+                                        }));
+                                        if deaths.len() >= pc.max_deaths {
+                                            shared.abort.store(true, Ordering::SeqCst);
+                                        }
+                                        drop(deaths);
+                                        // the step-mode re-run covered the rest of the shard
+                                        summaries.lock().unwrap().push(s);
+                                        return;
+                                    }
                                     shared.machinery.lock().unwrap().push(format!(
                                         "worker of shard {shard} died ({reason}) but the step-by-step re-run from case {from} completed: nondeterminism not captured"
                                     ));
